@@ -3,7 +3,7 @@
    quadratic non-residue b is obtained (random draws until mpz_jacobi = -1 / smallest b >= 2 with jacobi -1 /
    precomputed); the model takes b as a parameter (the harness obtains it exactly as the code does).
    Moduli are positive.  Loops carry fuel; running out of fuel is the explicit outcome SqDiverge
-   (the C loops do not terminate for s = 0, e.g. p = 1). *)
+   (the C loops do not terminate for s = 0, e.g. p = 1; p = 2 is answered by the guard added in 03c88a4). *)
 From Coq Require Import ZArith List Bool.
 From LT Require Import Zbase.
 Import ListNotations.
@@ -45,7 +45,8 @@ Definition sq_fuel (p : Z) : nat := S (Z.to_nat (Z.log2_up p)).
 
 (* common body of tmcg_mpz_sqrtmp_r (62-182), tmcg_mpz_sqrtmp (184-303) with non-residue b *)
 Definition sqrtmp_with (a p b : Z) : sq_outcome :=
-  if a =? 0 then SqThrowZero
+  if p =? 2 then SqOk (if Z.odd a then 1 else 0)        (* p = 2 guard, before the a = 0 test; mpz_sqrtm.cc:65-70,193-198 *)
+  else if a =? 0 then SqThrowZero
   else if p mod 4 =? 3 then SqOk (powm a ((p + 1) / 4) p)
   else
     let s := (p - 1) / 4 in
